@@ -646,5 +646,7 @@ def _slice_cases(run, ix, rows):
                               f"cut sign vector {tuple(sorted(row))} goes to branch(es) {which or 'none'}, whose `np.where(. == v)[1]` must find exactly one vertex of the row "
                               f"(and the two inside vertices for the quad branch)",
                               key=key_of("C11-R7", tuple(sorted(row))))
+    from ..interiorpt import hole_seed_rule
+    hole_seed_rule(run, ix, "R14", "C11")
     run.floor("slice sign vectors", n6, 27)
     run.floor("slice cut vectors", n7, 6)
